@@ -838,6 +838,13 @@ class Evaluator:
 
     def mkcmp(s, op, d: Poly):
         """comparison of d against 0, op in Gt GtE Eq NotEq; folded with sign facts when decidable"""
+        if op in ('Eq', 'NotEq') and isinstance(d, Poly):
+            # flag == False / flag != False with a truth-valued term as flag: the negated / the plain test
+            sg_ = d.single()
+            if sg_ is not None and len(sg_[0]) == 1 and sg_[0][0][1] == 1 and isinstance(sg_[0][0][0], tuple) and sg_[0][0][0][:1] == ('opq',) and len(sg_[0][0][0]) > 1 \
+                    and sg_[0][0][0][1] in ('in', 'cmp', 'and', 'or', 'not', 'is', 'any', 'all'):
+                t_ = term_from_key(sg_[0][0][0])
+                if t_ is not None and _is_boolterm(t_): return s.negate(t_) if op == 'Eq' else t_
         sg = s.sign(d)
         if op == 'Gt':
             if sg == {'>0'}: return True
@@ -2119,6 +2126,14 @@ class Evaluator:
             while isinstance(a_, Opq) and a_.k and a_.k[0] in ('list', 'keys', 'tuple', 'iter') and len(a_.k) == 2 and not (name in ('sorted', 'set') and a_.k[0] != 'keys'):
                 a_ = a_.k[1]        # min(d.keys()) == min(list(d)) == min(d)
             args = [a_]
+        if name == 'any' and len(args) == 1 and not kw and isinstance(args[0], Comp) and len(args[0].gens) == 1 and not args[0].gens[0][1] \
+                and isinstance(args[0].elt, Opq) and len(args[0].elt.k) == 3 and args[0].elt.k[0] == 'cmp' and args[0].elt.k[1] == 'Eq' and isinstance(args[0].elt.k[2], Poly):
+            # any(x == v for x in xs)  is  v in xs
+            xs_ = args[0].gens[0][0]; beta_ = s.elem_of(xs_, 0); d_ = args[0].elt.k[2]
+            if isinstance(beta_, Poly) and not isinstance(xs_, (list, tuple, dict)):
+                for sg_ in (1, -1):
+                    cand = ((d_ * Poly.const(sg_)) - beta_).neg()
+                    if repr(tkey(beta_)) not in repr(tkey(cand)): return s.compare(ast.In(), cand, xs_)
         if name in ('any', 'all') and len(args) == 1 and not kw and isinstance(args[0], (list, tuple)) and len(args[0]) <= 24:
             return s.mkbool('or' if name == 'any' else 'and', [s.truth(x_) for x_ in args[0]])          # written out over the concrete items
         if name == 'zip' and len(args) == 2 and not kw:
@@ -2777,6 +2792,25 @@ class Evaluator:
                 env.clear(); env.update(snap_env); s.stores = snap_st
             sr = s.search_loop(st, it, env, mod, depth)
             if sr is not None: return sr
+            # flag = False; for x in it: [tmp = ..] if p(x): flag = True      ==     flag = any(p(x) for x in it)      (and the dual with True / False / all)
+            if not st.orelse:
+                body_ = list(st.body); temps_ = []
+                while len(body_) > 1 and isinstance(body_[0], ast.Assign) and len(body_[0].targets) == 1 and isinstance(body_[0].targets[0], ast.Name) and body_[0].targets[0].id not in _chain_names(env):
+                    temps_.append(body_.pop(0))
+                if len(body_) == 1 and isinstance(body_[0], ast.If) and not body_[0].orelse and len(body_[0].body) == 1 and isinstance(body_[0].body[0], ast.Assign) \
+                        and len(body_[0].body[0].targets) == 1 and isinstance(body_[0].body[0].targets[0], ast.Name) and isinstance(body_[0].body[0].value, ast.Constant) \
+                        and isinstance(body_[0].body[0].value.value, bool):
+                    fl_ = body_[0].body[0].targets[0].id; newv_ = body_[0].body[0].value.value
+                    cur_ = s.lookup(fl_, env, mod) if fl_ in _chain_names(env) else None
+                    if cur_ is (not newv_) and fl_ not in tnames:
+                        env2 = {'__parent__': env}
+                        s.bind_iter(st.target, it, env2, mod, depth, 0)
+                        for t_ in temps_: env2[t_.targets[0].id] = s.ev(t_.value, env2, mod, depth)
+                        g_ = s.truth(s.ev(body_[0].test, env2, mod, depth))
+                        base_, flt_ = _fuse_iter2(_fuse_iter(it))
+                        anyv_ = s.builtin('any', [Comp(g_, [(base_, flt_)], 'list')], {}, mod, depth)
+                        s.rebind(fl_, anyv_ if newv_ else s.negate(anyv_), env)
+                        return
             if s.accumulate(st, it, env, mod, depth): return
             if s.array_build(st, it, env, mod, depth, assigned, tnames): return
             # running sum:  acc = 0; for x in it: [tmp = ..] [if c:] acc += e  (also spelled acc = acc + e)   ==   Σ(e for x in it if c)
@@ -2997,6 +3031,8 @@ class Evaluator:
                     b2_, f2_ = _fuse_iter2(_fuse_iter(gs[0][0].k[1]))
                     gs[0] = (b2_, f2_ + list(gs[0][1]))
             if any(f is False for _, fs in gs for f in fs): val = {'list': [], 'set': Opq('set'), 'dict': {}}[kind]
+            elif kind == 'set' and len(gs) == 1 and not gs[0][1] and same(elt, s.elem_of(gs[0][0], 0)) and not isinstance(gs[0][0], (list, tuple, dict)):
+                val = s.builtin('set', [gs[0][0]], {}, mod, depth)          # every item added unchanged: set(xs)
             else: val = Comp(elt, gs, kind)
             if kind == 'list' and s._empty_acc(place[2]) != 'list': val = s._binop(ast.Add(), place[2], val)      # appended to what the list already held
             if place[0] == 'name': s.rebind(place[1], val, env)
